@@ -101,6 +101,52 @@ func ruleFindConfig(c *Ctx, r *Repo, rule string) {
 			}
 			return true
 		})
+		if len(inner) == 0 {
+			// the loop over the names may sit in a function of the package that is handed the directory: the
+			// statement that calls it stands for the loop
+			ast.Inspect(outer.Body, func(m ast.Node) bool {
+				call, isCall := m.(*ast.CallExpr)
+				if !isCall {
+					return true
+				}
+				h := pkgFuncs(p)[calleeFunc(info, call)]
+				if h == nil || h == fd || h.Body == nil {
+					return true
+				}
+				hfc := newFuncCanon(info, h)
+				good := false
+				ast.Inspect(h.Body, func(k ast.Node) bool {
+					switch k.(type) {
+					case *ast.RangeStmt, *ast.ForStmt:
+						probes, returns := false, false
+						ast.Inspect(k, func(q ast.Node) bool {
+							switch y := q.(type) {
+							case *ast.CallExpr:
+								if strings.HasSuffix(calleeName(info, y), "pathlib.Path).Exists") && strings.HasPrefix(hfc.E(y), "ARG") && strings.Contains(hfc.E(y), ".Join<(github.com/chigopher/pathlib.Path).Join>(") {
+									probes = true
+								}
+							case *ast.ReturnStmt:
+								returns = true
+							}
+							return true
+						})
+						if probes && returns {
+							good = true
+						}
+						return false
+					}
+					return true
+				})
+				if good {
+					for _, st := range outer.Body.List {
+						if st.Pos() <= call.Pos() && call.End() <= st.End() {
+							inner = append(inner, st)
+						}
+					}
+				}
+				return true
+			})
+		}
 		if len(inner) != 1 {
 			return true
 		}
